@@ -509,6 +509,8 @@ func loadMetadata(bs []byte) (*meta, error) {
 
 	for _, so := range sos {
 		if _, exists := knownSections[so.Name]; !exists {
+			// Skip the unknown section, keeping track of where the next one starts.
+			offset += so.Length
 			continue
 		}
 		if so.Name == "responses" {
